@@ -130,6 +130,8 @@ impl WriteSource for pr::ExprKind {
 
             Range(range) => {
                 let mut r = String::new();
+                // the bounds are not operands of an enclosing binary operator
+                opt.binary_position = super::Position::Unspecified;
                 if let Some(start) = &range.start {
                     let start = write_within(start.as_ref(), self, opt.clone())?;
                     r += opt.consume(&start)?;
